@@ -361,7 +361,13 @@ func (x *Explorer) runPath(solver *smt.Solver, prefix []Decision) {
 		}
 	}
 	var sample *PathSample
-	if outcome == "done" && x.cfg.SampleEvery > 0 {
+	violatedHere := false
+	for _, a := range in.asserts {
+		if a.Result == "violated" || a.Result == "unknown" {
+			violatedHere = true
+		}
+	}
+	if outcome == "done" && x.cfg.SampleEvery > 0 && !violatedHere {
 		x.mu.Lock()
 		take := (x.res.Paths < 3 || (x.res.Paths+x.cfg.Seed)%x.cfg.SampleEvery == 0) && len(x.res.Samples) < 64
 		x.mu.Unlock()
